@@ -170,29 +170,120 @@ pub fn traverse(world: &WorldRef, with_shx: bool, rstack: StackCfg, n_expected: 
     });
     match r {
         Ok(v) => marks.extend(v),
-        Err(p) => marks.push(RMark { call: "again".into(), first_ev: 0, end_ev: 0, res: None, panic: Some(p) }),
+        Err(p) => {
+            marks.push(RMark { call: "again".into(), first_ev: 0, end_ev: 0, res: None, panic: Some(p) });
+            return marks;
+        }
+    }
+    // every random access directly followed by a short iteration: after a successful read_nth(i)
+    // the items of rank 0 and 1 are records 0 and 1 (or errors); after a failed one they may
+    // also be the records the previous iteration had not consumed (see genuine_only)
+    for i in 0..n_expected {
+        let first = evs(world);
+        let r = crate::rd::nth_generic(&mut rdr, i);
+        let end = evs(world);
+        match r {
+            Ok(x) => marks.push(RMark { call: format!("read_nth({})", i), first_ev: first, end_ev: end, res: x, panic: None }),
+            Err(p) => {
+                marks.push(RMark { call: format!("read_nth({})", i), first_ev: first, end_ev: end, res: None, panic: Some(p) });
+                return marks;
+            }
+        }
+        let r = guarded(|| {
+            let mut out = Vec::new();
+            let mut it = rdr.iter_shapes();
+            for k in 0..2usize {
+                let first = evs(world);
+                let x = it.next();
+                let end = evs(world);
+                let res = x.map(|x| x.map(|s| capture(&s)).map_err(|e| classify(&e)));
+                let stop = res.is_none();
+                out.push(RMark { call: format!("again#{}", k), first_ev: first, end_ev: end, res, panic: None });
+                if stop {
+                    break;
+                }
+            }
+            out
+        });
+        match r {
+            Ok(v) => marks.extend(v),
+            Err(p) => {
+                marks.push(RMark { call: "again".into(), first_ev: 0, end_ev: 0, res: None, panic: Some(p) });
+                return marks;
+            }
+        }
     }
     marks
 }
 
+/// Every returned shape is a genuine record of the file at the rank the reader's documented
+/// positions allow (C15: an iteration begins at the first record after `open` and after a
+/// successful random access; a further iteration, or one after a random access that *failed*,
+/// yields either the records not yet consumed or all records from the first). The model keeps
+/// the set of start positions still compatible with what was returned; with an index an item
+/// that is an error still consumes its entry.
 fn genuine_only(ctx: &mut Ctx, marks: &[RMark], f: &ValidFile, what: &str) {
     let never = |_: usize, _: usize| false;
+    let mut starts: Vec<usize> = vec![0];
+    let mut consumed = 0usize;
     for m in marks {
         if let Some(p) = &m.panic {
             ctx.fail("C13", "panic", p.site(), format!("{}: {} panicked: {}", what, m.call, p.text()));
         }
-        let Some(Ok(g)) = &m.res else { continue };
-        let idx: Option<usize> = if let Some(k) = m.call.strip_prefix("next#").or_else(|| m.call.strip_prefix("again#")) {
-            k.parse().ok()
-        } else {
-            m.call.strip_prefix("read_nth(").and_then(|s| s.trim_end_matches(')').parse().ok())
-        };
-        let Some(i) = idx else { continue };
-        match f.expected.get(i) {
-            None => ctx.fail("C13", "invented-shape", m.call.split(['#', '(']).next().unwrap_or(""), format!("{}: {} returned a shape but the file has {}", what, m.call, f.expected.len())),
-            Some(e) => {
-                if let Some(d) = diff_read(e, g, i, &never) {
-                    ctx.fail("C13", "invented-shape", m.call.split(['#', '(']).next().unwrap_or(""), format!("{}: {} differs from the original shape {}: {}", what, m.call, i, d));
+        let site = m.call.split(['#', '(']).next().unwrap_or("").to_string();
+        if let Some(k) = m.call.strip_prefix("next#").or_else(|| m.call.strip_prefix("again#")) {
+            let Ok(k) = k.parse::<usize>() else { continue };
+            if k == 0 {
+                let mut ns = vec![0usize];
+                for s in &starts {
+                    if !ns.contains(&(s + consumed)) {
+                        ns.push(s + consumed);
+                    }
+                }
+                starts = ns;
+                consumed = 0;
+            }
+            match &m.res {
+                Some(Ok(g)) => {
+                    let ok: Vec<usize> = starts.iter().copied().filter(|s| f.expected.get(s + k).map_or(false, |e| diff_read(e, g, s + k, &never).is_none())).collect();
+                    if ok.is_empty() {
+                        let s0 = starts[0];
+                        let detail = match f.expected.get(s0 + k) {
+                            None => format!("{}: {} returned a shape but the file has {}", what, m.call, f.expected.len()),
+                            Some(e) => format!("{}: {} differs from the original shape {}: {}{}", what, m.call, s0 + k, diff_read(e, g, s0 + k, &never).unwrap_or_default(), if starts.len() > 1 { format!(" (nor is it the record of any other permitted start {:?})", starts) } else { String::new() }),
+                        };
+                        ctx.fail("C13", "invented-shape", site, detail);
+                    } else {
+                        starts = ok;
+                    }
+                    consumed = k + 1;
+                }
+                Some(Err(_)) => consumed = k + 1,
+                None => {}
+            }
+        } else if let Some(i) = m.call.strip_prefix("read_nth(").and_then(|s| s.trim_end_matches(')').parse::<usize>().ok()) {
+            match &m.res {
+                Some(Ok(g)) => {
+                    match f.expected.get(i) {
+                        None => ctx.fail("C13", "invented-shape", site, format!("{}: {} returned a shape but the file has {}", what, m.call, f.expected.len())),
+                        Some(e) => {
+                            if let Some(d) = diff_read(e, g, i, &never) {
+                                ctx.fail("C13", "invented-shape", site, format!("{}: {} differs from the original shape {}: {}", what, m.call, i, d));
+                            }
+                        }
+                    }
+                    starts = vec![0];
+                    consumed = 0;
+                }
+                _ => {
+                    let mut ns = vec![0usize];
+                    for s in &starts {
+                        if !ns.contains(&(s + consumed)) {
+                            ns.push(s + consumed);
+                        }
+                    }
+                    starts = ns;
+                    consumed = 0;
                 }
             }
         }
@@ -285,6 +376,14 @@ pub fn run_case(scn: &RfScn, f: &ValidFile, ctx: &mut Ctx) {
             let wb = world.borrow();
             ctx.stats.absorb_world(&wb);
             let what = format!("source plan {}", serde_json::to_string(plan).unwrap_or_default());
+            if std::env::var_os("SHPSIM_DEBUG_MARKS").is_some() {
+                for m in &marks {
+                    eprintln!("{} ev {}..{} -> {:?}", m.call, m.first_ev, m.end_ev, m.res.as_ref().map(item_short));
+                    for e in &wb.log[m.first_ev.min(wb.log.len())..m.end_ev.min(wb.log.len())] {
+                        eprintln!("    {:?} dev {} pos {} asked {} moved {} err {:?}", e.kind, e.dev, e.pos, e.asked, e.moved, e.err);
+                    }
+                }
+            }
             genuine_only(ctx, &marks, f, &what);
             if marks.iter().any(|m| m.panic.is_some()) {
                 return;
@@ -354,7 +453,7 @@ pub fn unit(seed: u64, ctx: &mut Ctx, ctl: &mut UnitCtl) {
 
 /// Large shapes (parts of more than 1024 points, more than 1024 parts): the same sweeps with a
 /// stride on truncation lengths and operation indices away from the record boundaries.
-pub fn large_unit(unit: u64, ctx: &mut Ctx, ctl: &mut UnitCtl) {
+pub fn large_unit(unit: u64, coarse: bool, ctx: &mut Ctx, ctl: &mut UnitCtl) {
     let mut r = Rng::new(0x13A + unit);
     let cfg: [(i32, usize, usize); 8] = [(3, 1, 1500), (5, 1, 1025), (8, 1, 2000), (13, 1, 1100), (28, 1, 1300), (31, 1, 1030), (3, 1030, 2), (25, 2, 1200)];
     let (ty, nparts, npts) = cfg[(unit as usize) % cfg.len()];
@@ -364,7 +463,8 @@ pub fn large_unit(unit: u64, ctx: &mut Ctx, ctl: &mut UnitCtl) {
     }
     let w = WProg { calls: (0..3).map(WCall::W).collect(), shapes, others: vec![], ending: Ending::Drop, with_shx: true, stack: StackCfg::Direct };
     ctx.stats.reach("large-file");
-    unit_with(w, &mut r, 11, 37, ctx, ctl);
+    let (ts, os) = if coarse { (101, 409) } else { (11, 37) };
+    unit_with(w, &mut r, ts, os, ctx, ctl);
 }
 
 fn unit_with(w: WProg, r: &mut Rng, trunc_stride: usize, op_stride: u32, ctx: &mut Ctx, ctl: &mut UnitCtl) {
@@ -466,7 +566,7 @@ fn unit_with(w: WProg, r: &mut Rng, trunc_stride: usize, op_stride: u32, ctx: &m
                         let w1 = World::with_data(Plan { faults: vec![], dev: [DevCfg { chunks: vec![c], eintr: None, capacity: None }, DevCfg::default(), DevCfg::default()] }, fl.shp.clone(), fl.shx.clone(), vec![]);
                         let _ = traverse(&w1, true, rs, fl.expected.len());
                         let ops1 = w1.borrow().devices[SHP].ops;
-                        let stride = (ops1 / 400).max(1);
+                        let stride = (ops1 / if op_stride > 100 { 40 } else { 400 }).max(1);
                         for k in (0..ops1).step_by(stride as usize) {
                             let mut plan = Plan::default();
                             plan.dev[SHP].chunks = vec![c];
